@@ -248,6 +248,23 @@ int main(int argc, char** argv) {
   uint64_t seed = (uint64_t)a.num("seed", 1);
   int mult = (int)a.num("mult", 32);
   bool stop = false;
+  if (a.has("schedules")) {
+    // replay of TLC behaviours (e.g. a counterexample): thread order and futex wake sets from the file
+    auto scheds = ctl::readSchedules(a.str("schedules"));
+    for (auto& s : scheds) {
+      ctl::RunOptions o;
+      o.mode = ctl::RunOptions::Replay;
+      o.schedule = &s;
+      o.allowTimeout = !a.has("notimeout");
+      o.finishAfterReplay = !a.has("stopafter");
+      o.maxSteps = (size_t)a.num("maxsteps", 20000);
+      auto r = execute(progs[0], mult, o, tr, "replay");
+      tot.add(r);
+      if (!r.completed)
+        break;
+    }
+    stop = true;
+  }
   for (size_t pi = 0; pi < progs.size() && !stop; ++pi) {
     for (long long i = 0; i < n; ++i) {
       ctl::RunOptions o;
